@@ -1,3 +1,44 @@
-From TM Require Import Base Frame.
-Theorem C14_placeholder : fc_value (fc_new 1) = 1.
-Proof. reflexivity. Qed.
+(* C14 -- a server connection ends cleanly or with one error report; the server lives on.
+   Combine with C07_stream_is_served_request_by_request: all complete requests before the point where
+   the stream ends or breaks are served ([served ...]) and then the continuation below decides how the
+   connection ends -- nothing after that point is served. *)
+From TM Require Import Base Frame Pdu RtuCodec Framed Client Server FramedProofs ServerProofs AcceptProofs EndToEnd.
+
+(* peer closes on a frame boundary: silent end *)
+Theorem C14_clean_close : forall p m fuel rd w svc tl,
+  process (S fuel) p m (mkR [] false rd false) w (REof :: tl) svc = [TClosed].
+Proof. exact end_clean_close. Qed.
+(* stream ends inside a frame: exactly one report *)
+Theorem C14_eof_inside_frame : forall p m fuel rd w svc f i cs tl,
+  server_valid p f i -> Forall nonempty cs -> concat cs <> [] -> proper_prefix (concat cs) f ->
+  process (S fuel) p m (mkR [] false rd false) w (datas cs ++ REof :: tl) svc = [TReport (KOther 0)].
+Proof. exact end_inside_frame. Qed.
+(* read error on a boundary or inside a frame: exactly one report *)
+Theorem C14_read_error : forall p m fuel rd w svc k tl,
+  process (S fuel) p m (mkR [] false rd false) w (RErr k :: tl) svc = [TReport k].
+Proof. exact end_read_error. Qed.
+Theorem C14_read_error_inside_frame : forall p m fuel rd w svc f i cs tl k,
+  server_valid p f i -> Forall nonempty cs -> proper_prefix (concat cs) f ->
+  process (S fuel) p m (mkR [] false rd false) w (datas cs ++ RErr k :: tl) svc = [TReport k].
+Proof. exact end_error_inside_frame. Qed.
+(* nothing more arrives: the task waits (no report, no end) *)
+Theorem C14_idle_waits : forall p m fuel rd w svc, process (S fuel) p m (mkR [] false rd false) w [] svc = [TWaiting].
+Proof. exact end_waiting. Qed.
+(* a reply that cannot be encoded (oversized): one InvalidInput report, nothing after ([trace_default]
+   stops at the first Fail) *)
+Theorem C14_oversized_reply_reports : forall p m h r, 253 < rsp_size r -> server_enc p m h (RROk r) = Fail KInvalidInput.
+Proof. exact oversized_response_refused. Qed.
+
+(* accept loop: everything before the first stopping event is handled (a task per service, nothing
+   for a rejected connection); a failing setup / accept stops with that error, the abort signal with
+   Aborted; nothing after it is accepted *)
+Theorem C14_accept_loop : forall pre e post,
+  forallb (fun x => negb (stops x)) pre = true -> stops e = true ->
+  serve (pre ++ e :: post) = (flat_map script_of pre, result_of e).
+Proof. exact serve_split. Qed.
+Theorem C14_accept_loop_keeps_listening : forall evs,
+  forallb (fun x => negb (stops x)) evs = true -> serve evs = (flat_map script_of evs, SrvListening).
+Proof. exact serve_keeps_listening. Qed.
+(* error reports of the connections add up: a misbehaving connection does not affect the others *)
+Theorem C14_reports_are_per_connection : forall p m a b, serve_reports p m (a ++ b) = serve_reports p m a + serve_reports p m b.
+Proof. exact serve_reports_app. Qed.
